@@ -283,6 +283,24 @@ class TypeState:
                 for x_ in grp:
                     alias[x_] = grp
 
+        # what each local is computed from (transitively through plain local assignments): `outer_pin = instance.pins[inner_pin]` with
+        # `instance = pin.instance` is derived from `pin`
+        uses = {}
+        for n_ in walk_local(func.node):
+            if isinstance(n_, ast.Assign) and len(n_.targets) == 1 and isinstance(n_.targets[0], ast.Name):
+                uses.setdefault(n_.targets[0].id, set()).update(y_.id for y_ in ast.walk(n_.value) if isinstance(y_, ast.Name))
+
+        def mentions_closure(e):
+            seen_ = set()
+            todo_ = [y_.id for y_ in ast.walk(e) if isinstance(y_, ast.Name)]
+            while todo_:
+                v_ = todo_.pop()
+                if v_ in seen_:
+                    continue
+                seen_.add(v_)
+                todo_.extend(uses.get(v_, ()))
+            return seen_
+
         def elem_of(ev):
             """text of the element a relation write concerns (added / removed element, owner of the back-pointer, new top)"""
             if ev.field in ("_libraries", "_definitions", "_ports", "_cables", "_children", "_wires") or (ev.cls == "Wire" and ev.field == "_pins"):
@@ -375,10 +393,20 @@ class TypeState:
                         maynot = maynot | cs.notifies
                         pend = pend | cs.pending
                         must = must | cs.must
+            # a local re-bound to a different object (`instance = top`, `x = Instance()`) no longer is what an earlier announcement named
+            a_ = n.ast
+            if n.kind == "stmt" and isinstance(a_, ast.Assign) and len(a_.targets) == 1 and isinstance(a_.targets[0], ast.Name) and margs:
+                x_ = a_.targets[0].id
+                derived = x_ in mentions_closure(a_.value)
+                if not derived and any(x_ in args_ for (_k, args_) in margs):
+                    margs = frozenset((k_, tuple(("old:" + t_) if t_ == x_ else t_ for t_ in args_)) for (k_, args_) in margs)
             return (dirty, pend, maynot, must, margs)
 
         def join(a, b):
-            return (a[0] | b[0], a[1] | b[1], a[2] | b[2], a[3] & b[3], a[4] & b[4])
+            # announced arguments hold on all paths (intersection); a tuple in which a name was re-bound on one path stays, as the
+            # record that on some path the announcement named another object
+            stale = frozenset(t_ for t_ in (a[4] | b[4]) if any(x_.startswith("old:") for x_ in t_[1]))
+            return (a[0] | b[0], a[1] | b[1], a[2] | b[2], a[3] & b[3], (a[4] & b[4]) | stale)
 
         init = (frozenset(), frozenset(), frozenset(), frozenset(), frozenset())
         state = forward(fe.cfg, init, lambda n, st: step(n, st, False), join, follow=follow)
